@@ -60,7 +60,7 @@ CHECKS = {
              'code was defined by tainted content, or a tainted marker reached a call argument / a name resolved by evaluated code / a partial; '
              'a failing build must stem from UnsafeError. A second, model-free witness over the merged tree: an executed call must not be fed through any node '
              '(argument, every hop of a reference chain, content of the target) that the implementation itself flags unsafe. One-directional by design (never asserts that safe nodes must run).',
-        note='Taint is syntactic (own document + source + including content). executed-clean class in evidence shows the campaign is not vacuous.',
+        note='Taint is syntactic (own document + source + including content). executed-clean class in evidence shows the campaign is not vacuous. Unsafe dynamic nodes of the merged tree are also moved into a new mapping through the node API and must still be refused.',
         design='4/C07'),
     'C08': dict(
         technique='property-based differential testing (Hypothesis): path-existence predicate over the config built so far + recursive-update fold, for !notnew documents and generated command-line overrides',
